@@ -40,6 +40,7 @@ type cf struct {
 type cfCtx struct {
 	loop, sw, shadow bool
 	core             bool // core alphabet only
+	mini             int  // 0: no further restriction; 1: {M, R, if, if/else}; 2: {M, R, B, C, if/else, loop+continuing}
 }
 
 func (c cfCtx) key(n int) int {
@@ -48,6 +49,7 @@ func (c cfCtx) key(n int) int {
 	k = k*2 + b2i(c.sw)
 	k = k*2 + b2i(c.shadow)
 	k = k*2 + b2i(c.core)
+	k = k*3 + c.mini
 	return k
 }
 func b2i(b bool) int {
@@ -152,7 +154,28 @@ func (e *cfEnum) stmtsOf(a int, c cfCtx) []*cf {
 		return s
 	}
 	var out []*cf
-	inner := cfCtx{loop: c.loop, sw: c.sw, shadow: true, core: c.core}
+	inner := cfCtx{loop: c.loop, sw: c.sw, shadow: true, core: c.core, mini: c.mini}
+	if c.mini != 0 {
+		if a == 1 {
+			out = append(out, leafMark, leafReturn)
+			if c.mini == 2 && c.loop {
+				out = append(out, leafBreak, leafContinue)
+			}
+		}
+		if a >= 1 {
+			b := a - 1
+			if c.mini == 1 {
+				out = append(out, e.compound(cfIf, 0, b, []cfCtx{inner})...)
+			}
+			out = append(out, e.compound(cfIfElse, 0, b, []cfCtx{inner, inner})...)
+			if c.mini == 2 {
+				lc := cfCtx{loop: true, shadow: true, core: c.core, mini: c.mini}
+				out = append(out, e.compound(cfLoop, 3, b, []cfCtx{lc})...)
+			}
+		}
+		e.stmts[k] = out
+		return out
+	}
 	if a == 1 {
 		out = append(out, leafMark)
 		if c.loop || c.sw {
@@ -215,6 +238,18 @@ func F2Trees(k int, core bool) [][]*cf {
 	var out [][]*cf
 	for n := 1; n <= k; n++ {
 		out = append(out, cfE.listsOf(n, cfCtx{core: core})...)
+	}
+	return out
+}
+
+// F2TreesMini returns all top-level statement lists with 1..k nodes over a reduced alphabet
+// (mini 1: marker, return, if, if/else; mini 2: marker, return, break, continue, if/else, loop with continuing).
+func F2TreesMini(k, mini int) [][]*cf {
+	cfE.mu.Lock()
+	defer cfE.mu.Unlock()
+	var out [][]*cf
+	for n := 1; n <= k; n++ {
+		out = append(out, cfE.listsOf(n, cfCtx{core: true, mini: mini})...)
 	}
 	return out
 }
